@@ -109,6 +109,16 @@ func (c *Ctx) runTLC(r TLCRun, onCase func(raw []byte) error) (*TLCStats, error)
 	if err := os.WriteFile(filepath.Join(dir, r.Module+".cfg"), []byte(cfg.String()), 0o644); err != nil {
 		return nil, err
 	}
+	// VERIF_KEEP_CFG=<dir>: keep a copy of every configuration (to run TLC by hand, see spec/README.md)
+	if keep := os.Getenv("VERIF_KEEP_CFG"); keep != "" && len(r.ExtraFiles) == 0 {
+		os.MkdirAll(keep, 0o755)
+		h := hashOf(cfg.String() + r.Simulate)[:6]
+		head := fmt.Sprintf("\\* %s, %s tier; run: tlc -config cfg/%s.%s.%s.cfg %s.tla", c.ID, c.Tier, c.ID, r.Module, h, r.Module)
+		if r.Simulate != "" {
+			head += fmt.Sprintf(" -simulate %s -depth %d", r.Simulate, r.Depth)
+		}
+		os.WriteFile(filepath.Join(keep, fmt.Sprintf("%s.%s.%s.cfg", c.ID, r.Module, h)), []byte(head+"\n"+cfg.String()), 0o644)
+	}
 	workers := r.Workers
 	if workers == 0 {
 		workers = runtime.NumCPU()
